@@ -8,7 +8,9 @@ from ..core import Check, Space
 
 # helper bodies by signature: (param kinds) -> [body source]; x, y are the helper's parameters
 BODIES = {
-    ("Int",): ["x", "x + 1", "(x, 1)", "(x if x > 1 else 0)", "(lambda y: y + x)(2)", "(lambda x: x + 1)(x)"],
+    ("Int",): ["x", "x + 1", "(x, 1)", "(x if x > 1 else 0)", "(lambda y: y + x)(2)", "(lambda x: x + 1)(x)",
+               "(lambda v, s=2: v * s)(x + 1)", "(lambda *a: a[0] + 1)(x)", "(lambda v, s=2: v * s)(x + 1, s=x)",
+               "(lambda v: (lambda w=3: w + v)())(x)"],
     ("Jet",): ["x", "x.pt", "x.tr.Select(lambda t: t.q + x.pt)", "x.tr.Select(lambda x: x.q)",
                "x.tr.Where(lambda t: t.q > x.eta).Count()", "x.tr.Select(lambda j: (j.q, x.pt))",
                "[t.q + x.pt for t in x.tr]", "x.tr.Select(lambda t: (lambda x: x + 1)(t.q))", "[x.q for x in x.tr]",
